@@ -14,6 +14,7 @@ import (
 
 	"github.com/Shopify/sarama"
 	"verif/harness/hlib"
+	"verif/harness/life"
 )
 
 type Scenario struct {
@@ -58,6 +59,8 @@ type Result struct {
 	StartAt   map[int32]int64 // resolved start offset
 	Reached   bool            // every expected message arrived before the close
 	Trace     []string        // feeder hook events: "cf <kind> <partition> <value>"
+	Life      []string        // lifecycle hook events (C12 only): "lreset <tag>" / "lc <tag> <event> <key> <id> <value>"
+	LifePanic []string        // panics recovered in sarama's own goroutines (C12 only)
 }
 
 func Gen(seed uint64, focus string) *Scenario {
@@ -205,14 +208,19 @@ func Run(sc *Scenario) *Result {
 	sinkMu.Lock()
 	defer sinkMu.Unlock()
 	var evMu sync.Mutex
+	rec := life.Begin(fmt.Sprintf("cs:%d", sc.Seed))
 	sarama.VerifSinkKV = func(kind string, key string, a, b int64) {
 		if strings.HasPrefix(kind, "cf.") {
 			evMu.Lock()
 			res.Trace = append(res.Trace, fmt.Sprintf("cf %s %d %d", kind[3:], a, b))
 			evMu.Unlock()
 		}
+		rec.Event(kind, key, a, b)
 	}
-	defer func() { sarama.VerifSinkKV = nil }()
+	defer func() {
+		res.Life, res.LifePanic = rec.End()
+		sarama.VerifSinkKV = nil
+	}()
 	c, err := sarama.NewConsumer(sim.Addrs(), cfg)
 	if err != nil {
 		res.NewErr = err.Error()
@@ -353,6 +361,9 @@ func Check(res *Result) []Fail {
 	}
 	if res.Panic != "" {
 		add("C12:consumer-close-panic", "%s", res.Panic)
+	}
+	if len(res.LifePanic) > 0 {
+		add("C12:consumer-goroutine-panic", "recovered in one of the consumer's goroutines: %s", strings.Join(res.LifePanic, " | "))
 	}
 	for p := int32(0); p < sc.Partitions; p++ {
 		log := res.Logs[p]
